@@ -120,15 +120,17 @@ def encQuestion (multicast : Bool) (size : Nat) (names : Names) (q : EQuestion) 
   let c ← shortOf (classField q.qclass q.unique multicast)
   pure (nb ++ t ++ c, names')
 
+/-- one iteration of the loop in `DNSNsec.write`: `(bitmap, total_octets)` -/
+def nsecStep (acc : Except PyExc (List Nat × Nat)) (t : Nat) : Except PyExc (List Nat × Nat) := do
+  let (bm, _) ← acc
+  if Gen.Outgoing.nsec_type_too_large t then .error .valueError
+  else
+    let byte := Gen.Outgoing.nsec_byte t
+    pure (bm.set byte (bm.getD byte 0 ||| Gen.Outgoing.nsec_mask t), Gen.Outgoing.nsec_total_octets byte)
+
 /-- NSEC bitmap of `DNSNsec.write`: 32 bytes, one bit per rdtype, cut after the last type's byte -/
 def nsecBitmap (types : List Nat) : Except PyExc Bytes :=
-  let step (acc : Except PyExc (List Nat × Nat)) (t : Nat) : Except PyExc (List Nat × Nat) := do
-    let (bm, _) ← acc
-    if Gen.Outgoing.nsec_type_too_large t then .error .valueError
-    else
-      let byte := Gen.Outgoing.nsec_byte t
-      pure (bm.set byte (bm.getD byte 0 ||| Gen.Outgoing.nsec_mask t), Gen.Outgoing.nsec_total_octets byte)
-  match types.foldl step (.ok (List.replicate 32 0, 0)) with
+  match types.foldl nsecStep (.ok (List.replicate 32 0, 0)) with
   | .error e => .error e
   | .ok (bm, total) =>
     if total = 0 then .error .valueError
